@@ -13,7 +13,7 @@ import (
 )
 
 // Compact wire syntax for JSON values (no spaces), shared with lean/FqModel/C14Json.lean:
-//   n | t | f | i<decimal> | s<hex of bytes, - for empty> | [v,v,…] | {s<hex>:v,…}  (keys sorted)
+//   n | t | f | i<decimal> | I<decimal> (same number held as *big.Int although it fits an int) | s<hex of bytes, - for empty> | [v,v,…] | {s<hex>:v,…}  (keys sorted)
 // A float (only in harness-decided law lines; the Lean driver rejects it) is d<16 hex digits of its bits>.
 
 func wireOf(v any) string {
@@ -35,6 +35,9 @@ func writeWire(sb *strings.Builder, v any) {
 	case int:
 		fmt.Fprintf(sb, "i%d", v)
 	case *big.Int:
+		// (interp.Eval normalises its input, so the Go-level representation of an integer that fits
+		// an int cannot be chosen from outside; the laws re-create the big-integer representation
+		// inside jq instead, see `reprExpr` in laws.go)
 		sb.WriteByte('i')
 		sb.WriteString(v.String())
 	case float64:
@@ -101,6 +104,19 @@ func (p *wireParser) value() any {
 		return true
 	case 'f':
 		return false
+	case 'I':
+		st := p.i
+		if p.i < len(p.s) && p.s[p.i] == '-' {
+			p.i++
+		}
+		for p.i < len(p.s) && p.s[p.i] >= '0' && p.s[p.i] <= '9' {
+			p.i++
+		}
+		n, ok := new(big.Int).SetString(p.s[st:p.i], 10)
+		if !ok {
+			p.fail("bigint")
+		}
+		return n
 	case 'i':
 		st := p.i
 		if p.i < len(p.s) && p.s[p.i] == '-' {
@@ -229,6 +245,56 @@ func (g *jsonGen) key() string {
 	return g.str()
 }
 
+// ±2^31, ±2^53, 2^63−1, −2^63, 2^63, 2^64−1, −2^63−1, ±2^64, ±2^100 and neighbours
+var intEdges = []string{"0", "-1", "2147483647", "2147483648", "-2147483648", "-2147483649", "4294967296",
+	"9007199254740992", "9007199254740993", "-9007199254740992", "-9007199254740993",
+	"9223372036854775806", "9223372036854775807", "-9223372036854775807", "-9223372036854775808",
+	"9223372036854775808", "-9223372036854775809", "18446744073709551615", "18446744073709551616", "-18446744073709551616",
+	"1267650600228229401496703205376", "-1267650600228229401496703205376"}
+
+// arrays of objects nested in arrays of objects, empty containers at every position, keys that
+// need quoting
+func (g *jsonGen) aoo(depth int) any {
+	r := g.r
+	keys := []string{"a", "b", "k-1", "a b", "", "a.b", "\"q\"", "é", "0", "true", "#", "[x]"}
+	key := func() string {
+		for {
+			k := keys[r.Intn(len(keys))]
+			if g.keyFn != nil && k == "" && r.Bool() {
+				continue
+			}
+			return k
+		}
+	}
+	var obj func(d int) map[string]any
+	obj = func(d int) map[string]any {
+		m := map[string]any{}
+		for i := r.Intn(4); i > 0; i-- {
+			switch {
+			case d > 0 && r.Intn(2) == 0:
+				n := r.Range(0, 3)
+				a := make([]any, n)
+				for j := range a {
+					a[j] = obj(d - 1)
+				}
+				m[key()] = a
+			case d > 0 && r.Intn(4) == 0:
+				m[key()] = obj(d - 1)
+			case r.Intn(6) == 0:
+				m[key()] = []any{}
+			case r.Intn(6) == 0:
+				m[key()] = map[string]any{}
+			case r.Intn(5) == 0:
+				m[key()] = []any{g.leaf(), g.leaf()}
+			default:
+				m[key()] = g.leaf()
+			}
+		}
+		return m
+	}
+	return obj(depth)
+}
+
 func (g *jsonGen) integer() any {
 	r := g.r
 	var n *big.Int
@@ -236,8 +302,14 @@ func (g *jsonGen) integer() any {
 	case 0:
 		n = big.NewInt(int64(r.Range(-10, 10)))
 	case 1:
-		edges := []string{"9223372036854775807", "9223372036854775808", "-9223372036854775808", "-9223372036854775809", "18446744073709551616", "9007199254740993", "4294967296", "-2147483649"}
-		n, _ = new(big.Int).SetString(edges[r.Intn(len(edges))], 10)
+		n, _ = new(big.Int).SetString(intEdges[r.Intn(len(intEdges))], 10)
+		if g.intBits <= 63 && !n.IsInt64() {
+			n = big.NewInt(int64(r.Range(-3, 3)))
+		}
+		if n.IsInt64() {
+			return int(n.Int64())
+		}
+		return n
 	default:
 		bits := r.Range(1, g.intBits)
 		n = new(big.Int).SetBytes(r.Bytes(40))
